@@ -199,7 +199,7 @@ def cell_single_experiment(via):
         other, _ = gen.gen_experiments(rng, mix.second_component, 2, stated=False)
         mb = Membrane(name="M", ideal_experiments=IdealExperiments(experiments=e_bad + other))
         mo = Membrane(name="M", ideal_experiments=IdealExperiments(experiments=e_ok + other))
-        t = e_bad[0].temperature + rng.choice([-1, 1]) * rng.uniform(0.5, 40)
+        t = e_bad[0].temperature + rng.choice([-1, 1]) * (rng.uniform(0.5, 40) if rng.random() < 0.6 else gen.loguniform(rng, 1e-6, 0.3))
         t2 = e_ok[0].temperature + rng.choice([-1, 1]) * rng.uniform(0.5, 40)
         if via == "calculate_activation_energy":
             return (lambda: mb.calculate_activation_energy(comp)), (lambda: mo.calculate_activation_energy(comp)), {"mixture": mdesc, "membrane": gen.describe_membrane(mb)}
